@@ -1964,9 +1964,14 @@ func (s *SQLStore) DeletePayments(ctx context.Context, failedOnly,
 		queryFunc := func(ctx context.Context, lastID int64,
 			limit int32) ([]sqlc.FilterPaymentsRow, error) {
 
+			// All payments are candidates for deletion, whatever
+			// their creation time, so the lower bound is the
+			// smallest time there is (the zero time), not the
+			// unix epoch: payments created with a zero or
+			// pre-1970 timestamp must be removable too.
 			filterParams := sqlc.FilterPaymentsParams{
 				NumLimit:     limit,
-				CreatedAfter: time.Unix(0, 0).UTC(),
+				CreatedAfter: time.Time{},
 				CreatedBefore: time.Date(
 					9999, 12, 31, 23, 59, 59,
 					0, time.UTC,
